@@ -13,12 +13,12 @@ variable {V : Type} {ι : Type}
 structure Won (U : ι → Vals V) (file : ι → Nat) (S : ι → Prop) (acc : Vals V) : Prop where
   sorted : SortedV acc
   mem : ∀ p, p ∈ acc ↔ ∃ i, S i ∧ p ∈ U i ∧ ∀ k, S k → p.1 ∈ keys (U k) → file k ≤ file i
-  keys : ∀ ts, ts ∈ keys acc ↔ ∃ k, S k ∧ ts ∈ keys (U k)
+  kmem : ∀ ts, ts ∈ keys acc ↔ ∃ k, S k ∧ ts ∈ keys (U k)
 
 theorem Won.empty (U : ι → Vals V) (file : ι → Nat) : Won U file (fun _ => False) [] :=
   { sorted := SortedV.nil
     mem := by intro p; simp
-    keys := by intro ts; simp }
+    kmem := by intro ts; simp }
 
 /-- a single location -/
 theorem Won.single (U : ι → Vals V) (file : ι → Nat) (i : ι) (hs : SortedV (U i)) :
@@ -29,7 +29,7 @@ theorem Won.single (U : ι → Vals V) (file : ι → Nat) (i : ι) (hs : Sorted
       constructor
       · intro hp; exact ⟨i, rfl, hp, fun k hk _ => by subst hk; exact Nat.le_refl _⟩
       · rintro ⟨j, rfl, hp, _⟩; exact hp
-    keys := by
+    kmem := by
       intro ts
       constructor
       · intro h; exact ⟨i, rfl, h⟩
@@ -65,9 +65,9 @@ theorem Won.step_new_wins {U : ι → Vals V} {file : ι → Nat} {S : ι → Pr
             omega
           refine ⟨(w.mem p).2 ⟨j, hj, hpj, fun k hk hkk => hmax k (Or.inl hk) hkk⟩, hnk⟩
         · exact Or.inl hpj
-    keys := by
+    kmem := by
       intro ts
-      rw [keys_merge w.sorted hs, w.keys]
+      rw [keys_merge w.sorted hs, w.kmem]
       constructor
       · rintro (⟨k, hk, h⟩ | h)
         · exact ⟨k, Or.inl hk, h⟩
@@ -97,7 +97,7 @@ theorem Won.step_old_wins {U : ι → Vals V} {file : ι → Nat} {S : ι → Pr
             · exact Nat.le_of_lt (hold j hj p.1 (mem_keys_of_mem hpj) hkk)
         · refine ⟨i, Or.inr rfl, hp, ?_⟩
           rintro k (hk' | rfl) hkk
-          · exact absurd ((w.keys p.1).2 ⟨k, hk', hkk⟩) hk
+          · exact absurd ((w.kmem p.1).2 ⟨k, hk', hkk⟩) hk
           · exact Nat.le_refl _
       · rintro ⟨j, hj | rfl, hpj, hmax⟩
         · exact Or.inl ((w.mem p).2 ⟨j, hj, hpj, fun k hk hkk => hmax k (Or.inl hk) hkk⟩)
@@ -105,14 +105,14 @@ theorem Won.step_old_wins {U : ι → Vals V} {file : ι → Nat} {S : ι → Pr
           · left
             rcases hold with hSi | hold
             · exact (w.mem p).2 ⟨_, hSi, hpj, fun k hk' hkk => hmax k (Or.inl hk') hkk⟩
-            · obtain ⟨k, hSk, hkk⟩ := (w.keys p.1).1 hk
+            · obtain ⟨k, hSk, hkk⟩ := (w.kmem p.1).1 hk
               have h1 := hmax k (Or.inl hSk) hkk
               have h2 := hold k hSk p.1 hkk (mem_keys_of_mem hpj)
               omega
           · exact Or.inr ⟨hpj, hk⟩
-    keys := by
+    kmem := by
       intro ts
-      rw [keys_merge hs w.sorted, w.keys]
+      rw [keys_merge hs w.sorted, w.kmem]
       constructor
       · rintro (h | ⟨k, hk, h⟩)
         · exact ⟨i, Or.inr rfl, h⟩
